@@ -153,8 +153,12 @@ class CSIIndex:
         contig_indexes = []
         positions = []
         for contig_index, bins in enumerate(self.bins):
-            # bins may be in any order within a contig, so sort by loffset
-            for bin in sorted(bins, key=lambda b: b.loffset):
+            # bins may be in any order within a contig, so sort by loffset,
+            # breaking ties by position so that the first of several bins
+            # sharing an offset is the one that starts earliest
+            for bin in sorted(
+                bins, key=lambda b: (b.loffset, get_first_locus_in_bin(self, b.bin))
+            ):
                 if bin.bin == pseudo_bin:
                     continue  # skip pseudo bins
                 file_offset = get_file_offset(bin.loffset)
